@@ -10,6 +10,14 @@ import DpapiNg.Model.Gkdi
 namespace DpapiNg.Plan
 open DpapiNg
 
+/-- offsets computed from decoded (unsigned) integers: literals, locals, `+` and `*` — so natural-number arithmetic is exact -/
+inductive Expr where
+  | lit (n : Nat)
+  | var (name : String)
+  | add (a b : Expr)
+  | mul (a b : Expr)
+  deriving DecidableEq, Repr
+
 inductive Step where
   | int (name : String) (a b : Nat)      -- `name = int.from_bytes(view[a:b], byteorder="little")`
   | magic (a b : Nat)                    -- `if view[a:b].tobytes() != cls.magic: raise ValueError(...)`
@@ -18,6 +26,10 @@ inductive Step where
   | skipLen (len : String)               -- `view = view[len:]`
   | bytes (name len : String)            -- `name = view[:len].tobytes()`
   | text (name len : String)             -- `name = view[: len - 2].tobytes().decode("utf-16-le")`
+  | slice (name : String) (lo hi : Expr) -- `name = view[lo:hi].tobytes()`
+  | skipE (e : Expr)                     -- `view = view[e:]`
+  | guardLen (e : Expr)                  -- `if len(view) < e: raise ValueError(...)`
+  | beInt (name src : String)            -- `int.from_bytes(src, byteorder="big")` (in the constructor call), bound to `name`
   deriving DecidableEq, Repr
 
 structure Env where
@@ -27,6 +39,12 @@ structure Env where
 def Env.empty : Env := ⟨fun _ => 0, fun _ => []⟩
 def Env.setInt (e : Env) (k : String) (v : Nat) : Env := { e with ints := fun x => if x = k then v else e.ints x }
 def Env.setBytes (e : Env) (k : String) (v : Bytes) : Env := { e with bytes := fun x => if x = k then v else e.bytes x }
+
+def Expr.eval (e : Env) : Expr → Nat
+  | .lit n => n
+  | .var x => e.ints x
+  | .add a b => a.eval e + b.eval e
+  | .mul a b => a.eval e * b.eval e
 
 def run (magic : Bytes) : List Step → Bytes → Env → R Env
   | [], _, e => .ok e
@@ -40,6 +58,10 @@ def run (magic : Bytes) : List Step → Bytes → Env → R Env
   | .text n l :: rest, v, e =>
     let raw := Py.sliceTo v ((e.ints l : Int) - 2)
     if Gkdi.utf16Valid raw then run magic rest v (e.setBytes n raw) else .error .valueError
+  | .slice n lo hi :: rest, v, e => run magic rest v (e.setBytes n (Py.sliceN v (lo.eval e) (hi.eval e)))
+  | .skipE x :: rest, v, e => run magic rest (v.drop (x.eval e)) e
+  | .guardLen x :: rest, v, e => if v.length < x.eval e then .error .valueError else run magic rest v e
+  | .beInt n src :: rest, v, e => run magic rest v (e.setInt n (Py.fromBE (e.bytes src)))
 
 /-- the local variable bound to constructor keyword `k` -/
 def arg (ret : List (String × String)) (k : String) : String := (ret.lookup k).getD ""
